@@ -422,6 +422,14 @@ Step(e) ==
                                    v = 0 \/ v \notin DOMAIN vttl \/ vttl[v] = 0 \/ e.t <= vte[v] + vttl[v] + e.margin
                                    \/ HashOfK(vkey[v]) \in lateAdd THEN "F5"
                                ELSE IF cfg.coll THEN "F9" ELSE "")
+              \* C15: after a Clear the cache serves new writes as a fresh one would - that includes reclaiming what expires
+              \cup FlagS("C15", ~e.final \/ ~clearEver \/ \A i \in DOMAIN e.probeRaw : LET v == e.probeRaw[i][2] IN
+                                   v = 0 \/ v \notin DOMAIN vttl \/ vttl[v] = 0 \/ e.t <= vte[v] + vttl[v] + e.margin,
+                               "after a Clear, an entry whose TTL elapsed long ago still occupies the cache",
+                               IF \A i \in DOMAIN e.probeRaw : LET v == e.probeRaw[i][2] IN
+                                   v = 0 \/ v \notin DOMAIN vttl \/ vttl[v] = 0 \/ e.t <= vte[v] + vttl[v] + e.margin
+                                   \/ HashOfK(vkey[v]) \in lateAdd THEN "F5"
+                               ELSE IF cfg.coll THEN "F9" ELSE "")
               \* C15: directly after a Clear that overlapped nothing the cache is empty and reset
               \cup Flag("C15", lastEv # "ClearEnd" \/ clearEver \/
                                  (Len(e.storekeys) = 0 /\ Len(e.polkeys) = 0 /\ e.remaining = e.maxcost /\ Len(e.iter) = 0 /\ e.emn = 0),
